@@ -307,3 +307,36 @@ func ruleRejectBeforeWrite(entryKey, guardCallee string) ruleFunc {
 		c.R.Floor("B3-reject-before-write", n, 3)
 	}
 }
+
+// ruleNoGlobalResult: B2g.  The value an encoder returns must not reference
+// package-level memory (a pooled or shared buffer): a later call would
+// overwrite bytes the caller still holds.
+func ruleNoGlobalResult(label string, entries func(c *Ctx) []effectEntry, floor int) ruleFunc {
+	return func(c *Ctx) {
+		c.R.Rule("B2g (" + label + "): the returned value and everything it references contain no package-level object (shared/pooled buffers): results of successive calls cannot overwrite each other")
+		ents := entries(c)
+		for _, ent := range ents {
+			e := solveEntry(c, "B2g-no-shared-result", ent)
+			if e == nil {
+				continue
+			}
+			res := locset{}
+			for _, rs := range e.rets[e.entry] {
+				res.addAll(rs)
+			}
+			var globals []string
+			for o := range e.Closure(res) {
+				if o.kind == oGlobal {
+					globals = append(globals, o.label)
+				}
+			}
+			sort.Strings(globals)
+			if len(globals) > 0 {
+				c.R.Bad("B2g-no-shared-result", ent.key, c.P.Pos(e.entry.Pos()), "the result of "+ent.key+" may reference package-level memory ("+strings.Join(globals, ", ")+"): the next call can overwrite what this call returned")
+			} else {
+				c.R.OK("B2g-no-shared-result", ent.key, c.P.Pos(e.entry.Pos()), "result references no package-level object")
+			}
+		}
+		c.R.Floor("B2g-no-shared-result", len(ents), floor)
+	}
+}
